@@ -28,9 +28,9 @@ class C06(TreeCheck):
         n = 12 if tier == "quick" else 80
         out = []
         for i in range(n):
-            fam = {0: "branching", 1: "branching", 2: "already_shutting_down", 3: "already_shutting_down", 4: "churn", 5: "churn"}.get(i % 12)
+            fam = {0: "branching", 1: "branching", 2: "already_shutting_down", 3: "already_shutting_down_factory", 4: "churn", 5: "churn", 6: "idle_with_descendants", 7: "idle_with_descendants"}.get(i % 12)
             prog, meta = programs.g_kill(rng, family=fam)
-            hide = (rng.random() < 0.35 if i % 12 not in (0, 1) else True) if fam != "churn" else (i % 12 == 5 and rng.random() < 0.5)
+            hide = (rng.random() < 0.35 if i % 12 not in (0, 1) else True) if fam not in ("churn", "idle_with_descendants") else (i % 12 in (5, 7) and rng.random() < 0.5)
             meta["hide_psutil"] = hide
             out.append({"program": prog, "config": {"hide_psutil": hide}, "meta": meta})
         return out
@@ -46,7 +46,7 @@ class C06(TreeCheck):
 
     def nontrivial(self, case, F):
         forced = [o for o in F.ops.values() if o["call"] and o["call"]["a"].get("forced") and o["end"] is not None]
-        started = [s for t in F.tasks.values() for s in t["starts"] if s.get("kind") in ("endless", "nested", "spawn_subprocess", "churn_subprocess")]
+        started = [s for t in F.tasks.values() for s in t["starts"] if s.get("kind") in ("endless", "nested", "spawn_subprocess", "churn_subprocess")] or ([1] if case["meta"].get("family") == "idle_with_descendants" else [])
         if not forced or not started:
             return None
         m = case["meta"]
